@@ -53,9 +53,9 @@ class Check:
         self.depth = 3 if tier == "quick" else 8
         self.walker = Walker(repo, self.depth)
 
-    def summ(self, qualname: str, depth: Optional[int] = None):  # type: ignore
+    def summ(self, qualname: str, depth: Optional[int] = None, heap: bool = False):  # type: ignore
         self.functions_analysed.add(qualname)
-        return self.walker.summary(qualname, depth)
+        return self.walker.summary(qualname, depth, heap)
 
     # ------------------------------------------------------------------ recording
     def rule(self, rule: str, desc: str) -> None:
